@@ -796,7 +796,7 @@ def _run(ctx, cfg, n_cases, pool, res):
                                                          "how": "re-run: tools/sched_family.job_detach_in_update((job_seed,))"}})
         res["notes"].append("detach from inside observer.update(): %d runs in which the detach happened" % ndet)
     # C08: completion reported from inside an observer's update() ---------------------------------------
-    if prop == "C08":
+    if prop in ("C08", "C01"):
         nobs = 0
         for r in pool.map(job_observer_completion, [(seed * 7 + i,) for i in range(60 if tier == "quick" else 600)], chunksize=2):
             if r.get("skip"):
